@@ -46,8 +46,8 @@ PROPS = {
                    'loop only stops after a pass in which container rebuild, table rebuild and row refresh all report no change, '
                    'in that order and with that pass\'s dirty ids and timestamp; rebuild runs whenever the union-find grew. '
                    '(insert) the real SortedWritesTable::serial_insert keeps "at most one live row per key, every live row indexed, every index entry live" for every batch of pending rows and every merge function. '
-                   '(tblrebuild) the table side of a non-incremental value-level rebuild (serial branch and one chunk of the parallel branch of SortedWritesTable::rebuild_nonincremental, lifted) stages, for EVERY row the rebuilder reports, the removal of the row stored under the old key and the insertion of the rebuilt row, and nothing else; merge() then deletes before it inserts (insert). '
-                   'The rebuilder\'s report itself over a row range (rebuild_buf; rebuild_subset is proved in unit disp), the incremental table rebuild, parallel_insert and the chunking of the parallel branch are assumed.',
+                   '(tblrebuild) the table side of a value-level rebuild (all four copies of the staging loop in table/rebuild.rs, lifted: non-incremental serial branch incl. its chunked scan, one chunk of its parallel branch, the staging block of the incremental serial branch, one dirty id of its parallel branch) stages, for EVERY row the rebuilder reports, the removal of the row stored under the old key and the insertion of the rebuilt row, and nothing else; merge() then deletes before it inserts (insert). '
+                   'The rebuilder\'s report itself over a row range (rebuild_buf; rebuild_subset is proved in unit disp), the subset scans feeding the incremental rebuild, parallel_insert and the chunking / fan-out of the parallel branches are assumed.',
         level_note='Trusted (A-db): Database::{merge_all, run_rule_set} keep a canonical database canonical unless the union-find grew; '
                    'a rebuild pass in which rebuild_containers, apply_rebuild and refresh_rows_for_values all report no change leaves '
                    'the database canonical; inc_counter/read_counter; Query::build_cached_plan does not touch table contents; '
